@@ -1536,6 +1536,13 @@ Ym2612::~Ym2612()
 	delete d;
 }
 
+// The static tables are built by the first chip that is constructed: do that at
+// load time, so chips created on different threads never race on building them
+static struct Ym2612TablesInit
+{
+	Ym2612TablesInit() { Ym2612 first; (void)first; }
+} s_ym2612TablesInit;
+
 /**
  * (Re-)Initialize the YM2612.
  * @param clock YM2612 clock frequency.
